@@ -93,6 +93,19 @@ class ATH:
     m: int
     hidden: int = attrs.field(default=0, repr=False)
 
+# a field the constructor does not accept (computed in __post_init__)
+@dataclass
+class DCI:
+    a: int
+    double: int = field(init=False)
+    def __post_init__(self): self.double = self.a * 2
+
+@attrs.define
+class ATI:
+    m: int
+    double: int = attrs.field(init=False)
+    def __attrs_post_init__(self): self.double = self.m * 2
+
 class NT3(NamedTuple):
     p: int
     q: str = "q"
@@ -144,6 +157,7 @@ def atom(rng, hashable=False, orderable=None):
     opts += [("' ' + 'x' * 90 + ' '", "longstr"), ("'\"' + 'wide text ' * 9 + ' '", "longstr"), ("'y' * 95", "longstr")]
     opts += [("NT3(1, r=4)", "namedtuple"), ("NT3(2, 'z')", "namedtuple"), ("NT3(3, 'q', 5)", "namedtuple")]
     if not hashable:
+        opts += [("DCI(3)", "dataclass"), ("ATI(4)", "attrs")]
         opts += [("DCH(1, hidden=2)", "dataclass"), ("DCH(2)", "dataclass"), ("ATH(1, hidden=2)", "attrs"), ("ATH(2)", "attrs")]
         opts += [("DC3(1, c=5)", "dataclass"), ("DC3(2, d=(1,))", "dataclass"), ("DC3(3, 'x', 0, (2,))", "dataclass"), ("DC3(4, 'y')", "dataclass"),
                  ("AT3(1, o='z')", "attrs"), ("AT3(2, p=5)", "attrs"), ("AT3(3, [], 'o', 7)", "attrs"), ("AT3(4, [1])", "attrs"), ("AT3(5, [1], 'o', 2)", "attrs"),
